@@ -1,0 +1,57 @@
+//go:build verif
+
+// Package verifhook holds the observation hooks used by the external runtime
+// verification harness. With the "verif" build tag off every function is an
+// empty stub (see hook_off.go) and is inlined away.
+package verifhook
+
+import "sync/atomic"
+
+// Enabled reports whether the hooks are compiled in.
+const Enabled = true
+
+// Handlers is the set of callbacks installed by the harness. Any may be nil.
+type Handlers struct {
+	// Point is a schedule point: the handler may yield or sleep.
+	Point func(name string)
+	// Ev is a state event carrying two integers.
+	Ev func(name string, a, b uint64)
+	// EvB is a state event carrying an integer and a byte string.
+	EvB func(name string, a uint64, b []byte)
+	// FS is a persistence event (op in create, sync, syncdir, truncate, rename,
+	// unlink, append), reported after the operation returned.
+	FS func(op, path string, off, n int64)
+}
+
+var cur atomic.Pointer[Handlers]
+
+// Set installs h (nil removes all handlers).
+func Set(h *Handlers) { cur.Store(h) }
+
+// Point marks a schedule point.
+func Point(name string) {
+	if h := cur.Load(); h != nil && h.Point != nil {
+		h.Point(name)
+	}
+}
+
+// Ev reports a state event.
+func Ev(name string, a, b uint64) {
+	if h := cur.Load(); h != nil && h.Ev != nil {
+		h.Ev(name, a, b)
+	}
+}
+
+// EvB reports a state event with a byte payload.
+func EvB(name string, a uint64, b []byte) {
+	if h := cur.Load(); h != nil && h.EvB != nil {
+		h.EvB(name, a, b)
+	}
+}
+
+// FS reports a persistence event.
+func FS(op, path string, off, n int64) {
+	if h := cur.Load(); h != nil && h.FS != nil {
+		h.FS(op, path, off, n)
+	}
+}
